@@ -124,6 +124,10 @@ func genC18(t *rapid.T) c18Case {
 					p[k] = rapid.SampledFrom([]interface{}{"not json", A{"x"}, 5.0, true}).Draw(t, l+".illtyped")
 				}
 			}
+			if _, have := p["set"]; have {
+				// (only encodings that can carry a non-string deliver these)
+				p["set"] = rapid.SampledFrom([]interface{}{5.0, true, A{"loc two", 3.0}, A{A{"loc two"}}, M{"p": "loc two"}, "not json"}).Draw(t, l+".illtypedset")
+			}
 		case 3:
 			// an empty value for a structured parameter
 			for _, k := range []string{"fact", "rule", "pattern", "query", "event"} {
